@@ -55,6 +55,11 @@ CLAIMED.update({
    note="Trusted: kernel, extraction, drivers, transcription of chumsky's combinators and of parsers/*.rs, types.rs, header/mod.rs. Proved for single mailboxes; the list form (Mailboxes) and serde are covered by correspondence and the round-trip oracle only. Typed headers other than mailboxes (Date via httpdate, Content-Type via mime, MimeVersion, CTE, Content-Disposition) are not modelled: their get(set(h)) = h is tested on the implementation. Known findings F1-F4 (CR/LF or NUL in a name, quoted local parts, domain literals) are outside the theorems' premises. No axioms.",
    technique="Coq proof (PEG inversion by induction over word/item lists; association-list refinement) + exhaustive differential correspondence",
    design="8/C17"),
+ "C01": dict(
+   text="Coq theorem C01_envelope about an executable model of MessageBuilder (mailbox headers stored as displayed text and re-parsed by every later call, exactly as the real header map does) and of Envelope::try_from: for EVERY call sequence over mailboxes of a class that survives Display+FromStr with its addresses (C17's round trip, an explicit premise), build returns exactly what the call list specifies - recipients to++cc++bcc in call order, reverse path = last sender else single from, explicit envelope unchanged, MissingFrom/TooManyFrom/MissingTo exactly when specified, never a panic, Bcc field kept iff keep_bcc - plus C01_refuted_crlf_panics (F1 witness). Tied to /repo by call sequences (0..12 calls, 16 name classes, 9 address shapes) run on the real builder, the model and the specification; the specification also judges the implementation directly.",
+   note="Trusted: kernel, extraction, drivers, transcription of message/mod.rs builder and envelope.rs. The list round-trip premise is discharged by C17's theorems only for single mailboxes; for lists it is established by the C17 check (correspondence + round-trip oracle). Outside the premise lie the known findings F1-F4 (a mailbox that does not re-parse makes the builder answer MissingFrom/MissingTo or silently replace earlier recipients; CR/LF in a name panics). 'Exactly one Date and one From' is checked on the implementation's formatted output. No axioms.",
+   technique="Coq proof (invariant over arbitrary call sequences relating stored header text to the call list) + differential correspondence + executable specification as oracle",
+   design="8/C01"),
 })
 NOT_YET = {}
 props = [json.loads(l) for l in open(os.path.join(V, "properties.jsonl"))]
